@@ -21,7 +21,8 @@ Qed.
 (** * enumerated environments of a pattern *)
 Section Envs.
 Variable es : list axis.
-Hypothesis SC : sizes_consistent (flat_map fvn es) = true.
+(** every physical axis has one size *)
+Hypothesis SC : forall k n n', In (k, n) (flat_map fvn es) -> In (k, n') (flat_map fvn es) -> n = n'.
 
 Lemma fvn_list_nodup : NoDup (map fst (fvn_list es)).
 Proof. apply dd_nodup. Qed.
@@ -30,7 +31,7 @@ Lemma fvn_list_occ k n : In (k, n) (flat_map fvn es) -> In (k, n) (fvn_list es).
 Proof.
   intros H. destruct (dedup_keys [] (flat_map fvn es) k n H eq_refl) as (n' & Hn').
   pose proof (dedup_In_sub _ _ _ Hn') as Hn''.
-  rewrite (sizes_consistent_spec _ SC k n n' H Hn''). exact Hn'.
+  rewrite (SC k n n' H Hn''). exact Hn'.
 Qed.
 
 Lemma sup_envs_inrange pi : In pi (sup_envs es) -> Forall (inrange (env_of pi)) es.
@@ -58,9 +59,9 @@ Proof. simpl. apply app_nil_r. Qed.
 (** * [sup_rows] is the support *)
 Section Rows.
 Variable e : axis.
-Hypothesis SC : sizes_consistent (fvn e) = true.
+Hypothesis SC : forall k n n', In (k, n) (fvn e) -> In (k, n') (fvn e) -> n = n'.
 
-Lemma SC1 : sizes_consistent (flat_map fvn [e]) = true.
+Lemma SC1 : forall k n n', In (k, n) (flat_map fvn [e]) -> In (k, n') (flat_map fvn [e]) -> n = n'.
 Proof. rewrite flat1_fvn. exact SC. Qed.
 
 Theorem sup_rows_rng v : In v (sup_rows e) <-> rng e v.
@@ -92,6 +93,7 @@ Theorem contains_b_sound b0 g : sizes_consistent (fvn b0) = true -> sizes_consis
   contains_b b0 g = true -> forall v, rng b0 v -> rng g v.
 Proof.
   intros S0 Sg H v Hv. unfold contains_b in H. rewrite forallb_forall in H.
+  assert (S0' := sizes_consistent_spec _ S0); clear S0; rename S0' into S0. assert (Sg' := sizes_consistent_spec _ Sg); clear Sg; rename Sg' into Sg.
   apply (sup_rows_rng g Sg). apply nat_mem_iff. apply H. apply (sup_rows_rng b0 S0). exact Hv.
 Qed.
 
@@ -99,7 +101,9 @@ Theorem closed_b_sound a0 a1 g : sizes_consistent (fvn a0 ++ fvn a1) = true -> s
   closed_b a0 a1 g = true -> closed_under a0 a1 (rng g).
 Proof.
   intros Sa Sg H v' (rho & R0 & R1 & Hg & E). unfold closed_b in H. rewrite forallb_forall in H.
-  assert (SC : sizes_consistent (flat_map fvn [a0; a1]) = true) by (simpl; rewrite app_nil_r; exact Sa).
+  assert (Sg' := sizes_consistent_spec _ Sg); clear Sg; rename Sg' into Sg.
+  assert (SC : forall k n n', In (k, n) (flat_map fvn [a0; a1]) -> In (k, n') (flat_map fvn [a0; a1]) -> n = n')
+    by (simpl; rewrite app_nil_r; exact (sizes_consistent_spec _ Sa)).
   destruct (sup_envs_complete [a0; a1] SC rho) as (pi & Hp & Ag); [constructor; [exact R0|constructor; [exact R1|constructor]]|].
   specialize (H pi Hp).
   assert (E0 : eval (env_of pi) a0 = eval rho a0).
@@ -115,6 +119,7 @@ Theorem disjoint_b_sound a1 g : sizes_consistent (fvn a1) = true -> sizes_consis
   disjoint_b a1 g = true -> forall v, rng g v -> rng a1 v -> False.
 Proof.
   intros S1 Sg H v Hg Ha. unfold disjoint_b in H. rewrite forallb_forall in H.
+  assert (S1' := sizes_consistent_spec _ S1); clear S1; rename S1' into S1. assert (Sg' := sizes_consistent_spec _ Sg); clear Sg; rename Sg' into Sg.
   apply (sup_rows_rng a1 S1) in Ha. specialize (H v Ha). apply negb_true_iff in H.
   apply (sup_rows_rng g Sg) in Hg. apply nat_mem_iff in Hg. congruence.
 Qed.
@@ -124,7 +129,9 @@ Theorem closed_b_complete a0 a1 g : sizes_consistent (fvn a0 ++ fvn a1) = true -
   closed_under a0 a1 (rng g) -> closed_b a0 a1 g = true.
 Proof.
   intros Sa Sg C. unfold closed_b. rewrite forallb_forall. intros pi Hp.
-  assert (SC : sizes_consistent (flat_map fvn [a0; a1]) = true) by (simpl; rewrite app_nil_r; exact Sa).
+  assert (Sg' := sizes_consistent_spec _ Sg); clear Sg; rename Sg' into Sg.
+  assert (SC : forall k n n', In (k, n) (flat_map fvn [a0; a1]) -> In (k, n') (flat_map fvn [a0; a1]) -> n = n')
+    by (simpl; rewrite app_nil_r; exact (sizes_consistent_spec _ Sa)).
   pose proof (sup_envs_inrange [a0; a1] SC pi Hp) as R. inversion R as [|? ? R0 R']; subst. inversion R' as [|? ? R1 _]; subst.
   destruct (nat_mem (eval (env_of pi) a1) (sup_rows g)) eqn:M; [|reflexivity]. simpl.
   apply nat_mem_iff. apply (sup_rows_rng g Sg). apply C. exists (env_of pi).
